@@ -123,6 +123,16 @@ def tight(t, values, where, out):
                 not any(conv.accepts(c, x) for x in set(obs) for c in _REGISTRY.types):
             out.append(f"{where}: str although only the plain strings {sorted(set(obs))[:4]!r} were observed (each shorter "
                        f"than 20 characters, {len(set(obs))} distinct): no documented widening applies")
+        elif obs and _REGISTRY is not None:
+            # ... and strings that are ALL of one pseudo-type (or of integer and float strings, which resolve to the float
+            # kind) do not collapse either: the position keeps that pseudo-type
+            kinds = set()
+            for x in set(obs):
+                k = next((c.__name__ for c in _REGISTRY.types if conv.accepts(c, x)), None)
+                kinds.add(k)
+            if None not in kinds and (len(kinds) == 1 or kinds == {"IntString", "FloatString"}):
+                out.append(f"{where}: str although every string observed here {sorted(set(obs))[:4]!r} is of the pseudo-type(s) "
+                           f"{sorted(kinds)}, which resolve to one type: no documented widening applies")
         return
     if isinstance(t, StringLiteral):
         obs = {v for v in values if type(v) is str}
@@ -225,6 +235,14 @@ def falsify(ctx):
     for i in range(len(focus) + n):
         inputs = focus[i][0] if i < len(focus) else common.gen_inputs(rng, styled_p=0.1)
         cmps = (focus[i][1] if i < len(focus) else None) or common.cmps_choice(rng)
+        if i >= len(focus) and i % 25 == 3:
+            # two similar models that each saw strings of ONE pseudo-type at a position, next to numbers — in one of them
+            # the position is also missing once (the pseudo-type then sits under an Optional member when the two are merged)
+            ps, num, other = rng.choice([("1", 2, 2.5), ("12", 7, 0.5), ("1.5", 2.5, 3), ("true", 1, 2.5)])
+            rest = {"a": 1, "b": 2, "c": 3}
+            inputs = [("Root", [{"first": [dict(rest, x=ps), dict(rest, x=num)],
+                                "second": [dict(rest, x=ps), dict(rest, x=other), dict(rest)]}])]
+            cmps = common.cmps_choice(rng) if rng.random() < 0.5 else []
         try:
             hit = check_case(inputs, cmps, registry)
         except (ZeroDivisionError, stages.TooCostly):
